@@ -17,3 +17,7 @@ pub assume_specification<T>[ core::mem::replace::<T> ](dest: &mut T, src: T) -> 
     ensures *final(dest) == src, r == *old(dest),
     opens_invariants none
     no_unwind;
+
+// Result::or (std): the value if Ok, otherwise the alternative
+pub assume_specification<T, E, F>[ Result::<T, E>::or ](r: Result<T, E>, res: Result<T, F>) -> (o: Result<T, F>)
+    ensures match r { Ok(t) => o == Ok::<T, F>(t), Err(_) => o == res };
